@@ -1490,4 +1490,20 @@ def r01_10(ctx):
     return o
 
 
-RULES = [r01_1, r01_2, r01_3, r01_4, r01_5, r01_6, r01_7, r01_8, r01_9, r01_10]
+def r01_11(ctx):
+    from rules import C15
+    o = C15.r15_4(ctx)
+    o.rule = "R01.11"
+    o.text = ("the crossings found on an operand curve are inserted into the segments they were found on: JordanCurve.split addresses later segments correctly after earlier insertions, several nodes per segment included (same analysis as R15.4)")
+    return o
+
+
+def r01_12(ctx):
+    from rules import C17
+    o = C17.r17_3(ctx)
+    o.rule = "R01.12"
+    o.text = ("the boxes used as quick rejects enclose what they stand for: the box of a segment / closed curve / shape contains every point of it, interior extrema of curved pieces included (same analysis as R17.3)")
+    return o
+
+
+RULES = [r01_1, r01_2, r01_3, r01_4, r01_5, r01_6, r01_7, r01_8, r01_9, r01_10, r01_11, r01_12]
